@@ -6,7 +6,7 @@
    (Model/EncodeBase.mkbuf).  Output columns: model observation, spec
    expectation ("-" when the case is outside the property's domain), key of
    the recorded defect class the case lies in ("-" if none). *)
-From PV Require Import Base.Text Model.Encode Model.EncodeCompose Model.EncodeShow Spec.EncodeRef.
+From PV Require Import Base.Text Model.Encode Model.EncodeCompose Model.EncodeDHCP Model.EncodeShow Spec.EncodeRef Spec.EncodeRefDHCP.
 Open Scope string_scope.
 Open Scope N_scope.
 
@@ -260,6 +260,356 @@ Definition run_frame4 (c l : nat) (seed : N) (smac dmac : bytes) (ttl : N) (sip 
     else "-" in
   out3 m s "-".
 
+(* ---------------- IPv6 ---------------- *)
+(* EncodeIP6 allocates when the buffer is too small: the result then does not alias the buffer *)
+Definition show_enc6 (old : bytes) (r : res (slice * bool)) (rb : slice -> string) : string :=
+  match r with
+  | Ok (s, true) => sp (sp (sp "fresh" (show_fresh (Ok s))) (show_hull old old)) (rb s)
+  | Ok (s, false) => sp (show_enc old (Ok s)) (rb s)
+  | Err e => "err:" ++ show_err e
+  | Panic => "panic"
+  | Fuel => "fuel"
+  end.
+
+Definition run_ip6 (c l : nat) (seed hop : N) (src dst : bytes) : string :=
+  let b := mkbuf c l seed in
+  out3 (show_enc6 (arr b) (encode_ip6 b hop src dst) rb_ip6) "-" "-".
+
+Definition MODE_N : N := 12.  (* token "0c": AppendPayload(nil) *)
+
+Definition ip6_expect (old : bytes) (r : res slice) (hop nh : N) (src dst payload : bytes) : string :=
+  match r with
+  | Ok p =>
+      let plen := List.length payload in
+      match ref_ip6 (view p) with
+      | Some x =>
+          if (r6_class x =? 0) && (r6_flow x =? 0) && (r6_plen x =? N.of_nat plen) && (r6_next x =? nh)
+             && (r6_hop x =? hop) && eqbytes (r6_src x) (as16 src) && eqbytes (r6_dst x) (as16 dst)
+             && eqbytes (r6_payload x) payload && Nat.eqb (len p) (40 + plen)
+          then sp (show_enc old r)
+                  (fmt_ip6 "6" (dn plen) (dec_of_N nh) (dec_of_N hop) (tok_of_bytes (as16 src))
+                           (tok_of_bytes (as16 dst)) "T" (if Nat.eqb (cap p) 40 then "empty" else "40+" ++ dn plen))
+          else REF
+      | None => REF
+      end
+  | _ => "no-result"
+  end.
+
+Definition run_ip6pl (c l : nat) (seed hop : N) (src dst : bytes) (nh : N) (mode payload : bytes) : string :=
+  let b := mkbuf c l seed in
+  let plen := List.length payload in
+  match encode_ip6 b hop src dst with
+  | Ok (ip, fresh) =>
+      let r := if is_mode mode MODE_S then ip6_set_payload (if fresh then ip else prewrite ip 40 payload) plen nh
+               else ip6_append ip payload (is_mode mode MODE_N) nh in
+      if fresh then
+        (* the frame lives in a private 40-byte buffer: the caller's buffer is untouched *)
+        out3 (match r with
+              | Ok s => sp (sp (sp "fresh" (show_fresh (Ok s))) "-") (rb_ip6 s)
+              | Err e => "fresh err:" ++ show_err e
+              | _ => "panic"
+              end) "-" "-"
+      else
+        let m := with_rb_pre (arr b) (arr ip) r rb_ip6 in
+        let fits := Nat.leb (40 + plen) c && Nat.leb (40 + plen) 1508 && negb (is_mode mode MODE_N) in
+        out3 m (if fits then ip6_expect (arr b) r hop nh src dst payload else "-") "-"
+  | _ => out3 "panic" "-" "-"
+  end.
+
+Definition rb_frame6 (e : slice) : string :=
+  let ip := ether_payload e in
+  let u := bind ip ip6_payload in
+  rb_ether e ++ BAR ++ show_res rb_ip6 ip ++ BAR ++ show_res rb_udp u ++ BAR ++ show_class (parse_class e).
+
+Definition frame6_pre (b : slice) (smac dmac : bytes) (hop : N) (sip dip : bytes) (sport dport : N) : bytes :=
+  match (e <- encode_ether b ETH_P_IPV6 smac dmac ;;
+         pl <- ether_payload e ;;
+         '(ip, fresh) <- encode_ip6 pl hop sip dip ;;
+         ipl <- ip6_payload ip ;;
+         u <- encode_udp ipl sport dport ;;
+         Ok (if fresh then arr e else arr (writeback e (arr (writeback ip (arr u))))))%res with
+  | Ok a => a
+  | _ => arr b
+  end.
+
+Definition run_frame6 (c l : nat) (seed : N) (smac dmac : bytes) (hop : N) (sip dip : bytes)
+           (sport dport : N) (data : bytes) : string :=
+  let b := mkbuf c l seed in
+  let r := compose_udp6 b smac dmac hop sip dip sport dport data in
+  let m := with_rb_pre (arr b) (frame6_pre b smac dmac hop sip dip sport dport) r rb_frame6 in
+  let dl := List.length data in
+  let fits := Nat.leb (62 + dl) c && Nat.leb (62 + dl) 1522
+              && Nat.eqb (List.length smac) 6 && Nat.eqb (List.length dmac) 6
+              && (N.land (nth 0 smac 0) 1 =? 0) in
+  let s :=
+    if fits then
+      match r with
+      | Ok e =>
+          match ref_ether (view e) with
+          | Some x =>
+              match ref_ip6 (re_payload x) with
+              | Some y =>
+                  match ref_udp (r6_payload y) with
+                  | Some z =>
+                      if eqbytes (re_dst x) dmac && eqbytes (re_src x) smac && (re_type x =? ETH_P_IPV6)
+                         && (r6_hop y =? hop) && (r6_next y =? 17) && eqbytes (r6_src y) (as16 sip)
+                         && eqbytes (r6_dst y) (as16 dip) && (r6_plen y =? N.of_nat (8 + dl))
+                         && Nat.eqb (List.length (re_payload x)) (48 + dl)
+                         && (ru_sport z =? sport) && (ru_dport z =? dport) && (ru_len z =? N.of_nat (8 + dl))
+                         && eqbytes (ru_payload z) data
+                      then
+                        sp (show_enc (arr b) r)
+                           (fmt_ether (tok_of_bytes dmac) (tok_of_bytes smac) "34525" "14" ("14+" ++ dn (48 + dl))
+                            ++ BAR ++
+                            fmt_ip6 "6" (dn (8 + dl)) "17" (dec_of_N hop) (tok_of_bytes (as16 sip))
+                                    (tok_of_bytes (as16 dip)) "T" ("40+" ++ dn (8 + dl))
+                            ++ BAR ++
+                            fmt_udp (dec_of_N sport) (dec_of_N dport) (dn (8 + dl)) "0" "T"
+                                    (if Nat.eqb c (62 + dl) && Nat.eqb dl 0 then "empty" else "8+" ++ dn dl)
+                            ++ BAR ++ dec_of_N (class_of_ports sport dport) ++ "/F")
+                      else REF
+                  | None => REF
+                  end
+              | None => REF
+              end
+          | None => REF
+          end
+      | _ => "no-result"
+      end
+    else "-" in
+  out3 m s "-".
+
+(* ---------------- ARP ---------------- *)
+Definition run_arp (c l : nat) (seed op : N) (smac sip dmac dip : bytes) : string :=
+  let b := mkbuf c l seed in
+  let r := encode_arp b op smac sip dmac dip in
+  let m := with_rb (arr b) r rb_arp in
+  let fits := Nat.leb 28 c && Nat.eqb (List.length smac) 6 && Nat.eqb (List.length dmac) 6 && is4 sip && is4 dip in
+  let s := if fits then
+             match r with
+             | Ok p =>
+                 match ref_arp (view p) with
+                 | Some x => if (ra_op x =? op) && eqbytes (ra_sha x) smac && eqbytes (ra_spa x) sip
+                                && eqbytes (ra_tha x) dmac && eqbytes (ra_tpa x) dip && Nat.eqb (len p) 28
+                             then sp (show_enc (arr b) r)
+                                     (fmt_arp "1" "2048" "6" "4" (dec_of_N op) (tok_of_bytes smac) (tok_of_bytes sip)
+                                              (tok_of_bytes dmac) (tok_of_bytes dip) "T")
+                             else REF
+                 | None => REF
+                 end
+             | _ => "no-result"
+             end
+           else "-" in
+  out3 m s "-".
+
+(* ---------------- ICMP echo ---------------- *)
+Definition run_echo (c l : nat) (seed t code id sq : N) (data : bytes) : string :=
+  let b := mkbuf c l seed in
+  let r := encode_icmp_echo b t code id sq data in
+  let m := with_rb (arr b) r rb_echo in
+  let dl := List.length data in
+  let fits := Nat.leb (8 + dl) c in
+  let s := if fits then
+             match r with
+             | Ok p =>
+                 match ref_echo (view p) with
+                 | Some x => if (rc_type x =? t) && (rc_code x =? code) && (rc_cksum x =? 0) && (rc_id x =? id)
+                                && (rc_seq x =? sq) && eqbytes (rc_data x) data
+                             then sp (show_enc (arr b) r)
+                                     (fmt_echo (dec_of_N t) (dec_of_N code) "0" (dec_of_N id) (dec_of_N sq) "T"
+                                               (* EchoData: nil for an empty payload *)
+                                               (if Nat.eqb dl 0 then "empty" else "8+" ++ dn dl))
+                             else REF
+                 | None => REF
+                 end
+             | _ => "no-result"
+             end
+           else "-" in
+  out3 m s "-".
+
+(* ---------------- NDP NA / NS ---------------- *)
+Definition run_na (ro so ov : bool) (tip tmac : bytes) : string :=
+  let r := na_marshal ro so ov tip tmac in
+  let m := match r with Ok s => sp (show_fresh r) (rb_na s) | _ => show_fresh r end in
+  let fits := is16 tip && Nat.eqb (List.length tmac) 6 in
+  let s := if fits then
+             match r with
+             | Ok p =>
+                 match ref_nd (view p) with
+                 | Some x =>
+                     if (rn_type x =? 136) && (rn_code x =? 0)
+                        && (rn_flags x =? bflag ro 128 + bflag so 64 + bflag ov 32)
+                        && eqbytes (rn_target x) tip
+                        && match ref_na_tlla x with Some mm => eqbytes mm tmac | None => false end
+                     then sp (show_fresh r)
+                             (fmt_na "136" "0" (show_bool ro) (show_bool so) (show_bool ov) (tok_of_bytes tip)
+                                     (tok_of_bytes tmac) "T")
+                     else REF
+                 | None => REF
+                 end
+             | _ => "no-result"
+             end
+           else "-" in
+  out3 m s "-".
+
+Definition run_ns (tip slla : bytes) : string :=
+  let r := ns_marshal tip slla in
+  let m := match r with Ok s => sp (show_fresh r) (rb_ns s) | _ => show_fresh r end in
+  let fits := is16 tip && Nat.eqb (List.length slla) 6 in
+  let s := if fits then
+             match r with
+             | Ok p =>
+                 match ref_nd (view p) with
+                 | Some x =>
+                     if (rn_type x =? 135) && (rn_code x =? 0) && eqbytes (rn_target x) tip
+                        && match ref_ns_slla x with Some mm => eqbytes mm slla | None => false end
+                     then sp (show_fresh r) (fmt_ns "135" "0" (tok_of_bytes tip) (tok_of_bytes slla) "T")
+                     else REF
+                 | None => REF
+                 end
+             | _ => "no-result"
+             end
+           else "-" in
+  (* recorded defect: the marshal function writes option type 2 (target LLA) where RFC 4861 4.3 and the
+     library's own SourceLLA() getter require type 1; every well-formed call is in the class *)
+  out3 m s (if fits && (NS_OPT_TYPE =? 2) then "ns-marshal-option-type" else "-").
+
+(* ---------------- DNS query ---------------- *)
+(* is the name a sequence of plain labels (1..63) closed by the root label, with nothing after it *)
+Definition wire_name_okb (name : bytes) : bool :=
+  match ref_labels (S (List.length name)) name with
+  | Some (_, []) => true
+  | _ => false
+  end.
+
+Definition run_dnsq (id fl : N) (name : bytes) (qt : N) : string :=
+  let r := encode_dns_query id fl name qt in
+  let m := match r with Ok s => sp (show_fresh r) (rb_dns s) | _ => show_fresh r end in
+  let fits := wire_name_okb name && Nat.leb (List.length name) 255 in
+  let s := if fits then
+             match r with
+             | Ok p =>
+                 match ref_dns_query (view p) with
+                 | Some x =>
+                     if (rq_id x =? id) && (rq_flags x =? fl) && (rq_qd x =? 1) && (rq_an x =? 0) && (rq_ns x =? 0)
+                        && (rq_ar x =? 0) && eqbytes (wire_of_labels (rq_labels x)) name && (rq_type x =? qt)
+                        && (rq_class x =? 1) && eqbytes (rq_trailing x) []
+                     then sp (show_fresh r)
+                             (fmt_dns (dec_of_N id) (dec_of_N fl) "1" "0" "0" "0"
+                                (sp (sp (sp (kv "name" (tok_of_bytes (join_labels (rq_labels x)))) (kv "qt" (dec_of_N qt)))
+                                    (kv "qc" "1")) (kv "end" (dn (16 + List.length name)))))
+                     else REF
+                 | None => REF
+                 end
+             | _ => "no-result"
+             end
+           else "-" in
+  (* recorded defect: DecodeQuestion demands index+6 <= len, so the 17-byte query for the root name is rejected *)
+  out3 m s (if eqbytes name [0] then "dnsq-root-name" else "-").
+
+(* ---------------- DHCPv4 ---------------- *)
+Definition COMMA : ascii := ","%char.
+Definition EQUALS : ascii := "="%char.
+Fixpoint parse_opts_toks (l : list string) : option opts :=
+  match l with
+  | [] => Some []
+  | t :: r =>
+      match Text.split EQUALS t with
+      | [k; v] => match N_of_dec k, bytes_of_hex v, parse_opts_toks r with
+                  | Some k', Some v', Some r' => Some ((k', v') :: r')
+                  | _, _, _ => None
+                  end
+      | _ => None
+      end
+  end.
+Definition opts_of_tok (s : string) : option opts :=
+  if String.eqb s "-" then Some [] else parse_opts_toks (Text.split COMMA s).
+Definition show_opts (o : opts) : string :=
+  match o with
+  | [] => "-"
+  | _ => join "," (map (fun kv => dec_of_N (fst kv) ++ "=" ++ hex_of_bytes (snd kv)) (sort_opts o))
+  end.
+
+Definition fmt_dhcp (op ht hl hops xid secs fl ci yi si gi ch ck ok os : string) : string :=
+  sp (sp (sp (sp (sp (sp (sp (sp (sp (sp (sp (sp (sp (sp (kv "op" op) (kv "ht" ht)) (kv "hl" hl)) (kv "hops" hops))
+     (kv "xid" xid)) (kv "secs" secs)) (kv "fl" fl)) (kv "ci" ci)) (kv "yi" yi)) (kv "si" si)) (kv "gi" gi))
+     (kv "ch" ch)) (kv "ck" ck)) (kv "ok" ok)) (kv "opts" os).
+Definition rb_dhcp (p : slice) : string :=
+  fmt_dhcp (rN (dhcp_opcode p)) (rN (dhcp_htype p)) (rN (dhcp_hlen p)) (rN (dhcp_hops p)) (rB (dhcp_xid p))
+           (rN (dhcp_secs p)) (rN (dhcp_flags p)) (rB (dhcp_ciaddr p)) (rB (dhcp_yiaddr p)) (rB (dhcp_siaddr p))
+           (rB (dhcp_giaddr p)) (rB (dhcp_chaddr p)) (rB (dhcp_cookie p)) (rT (dhcp_is_valid p))
+           (show_opts (dhcp_parse_options p)).
+
+Definition opts_size (o : opts) : nat := fold_right (fun kv n => (2 + List.length (snd kv) + n)%nat) 0%nat o.
+Definition keys_ok (o : opts) : bool :=
+  forallb (fun kv => negb (fst kv =? 0) && (fst kv <? 255) && Nat.leb (List.length (snd kv)) 255) o.
+Fixpoint nodup_keys (o : opts) : bool :=
+  match o with
+  | [] => true
+  | (k, _) :: r => match lookup_opt k r with None => nodup_keys r | Some _ => false end
+  end.
+Fixpoint index_of (k : N) (l : list N) (i : nat) : option nat :=
+  match l with [] => None | x :: r => if x =? k then Some i else index_of k r (S i) end.
+(* the caller's order names the router (3) before the mask (1), and both options are present *)
+Definition known_router_before_mask (o : opts) (order : list N) : bool :=
+  match lookup_opt 1 o, lookup_opt 3 o with
+  | Some _, Some _ =>
+      match index_of 3 (order ++ reply_params) 0, index_of 1 (order ++ reply_params) 0 with
+      | Some i, Some j => Nat.ltb i j
+      | _, _ => false
+      end
+  | _, _ => false
+  end.
+
+Definition run_dhcp4 (c l : nat) (seed opcode mt : N) (chflag : bool) (ch ci yi : bytes) (xflag : bool)
+           (xid : bytes) (bc : bool) (o : opts) (order perm : list N) : string :=
+  let b := mkbuf c l seed in
+  let r := encode_dhcp4 b opcode mt (if chflag then Some ch else None) ci yi (if xflag then Some xid else None)
+                        bc o order perm in
+  let m := with_rb (arr b) r rb_dhcp in
+  let o' := set_opt 53 [mt] o in
+  let fits := Nat.leb 300 c && nodup_keys o && keys_ok o' && Nat.leb (opts_size o') SCRATCH
+              && Nat.leb (241 + opts_size o') c
+              && (negb chflag || Nat.eqb (List.length ch) 6) && (negb xflag || Nat.eqb (List.length xid) 4)
+              && (is4 ci || Nat.eqb (List.length ci) 0) && (is4 yi || Nat.eqb (List.length yi) 0) in
+  let known := fits && known_router_before_mask o' order in
+  let old := arr b in
+  let s :=
+    if fits then
+      match r with
+      | Ok p =>
+          match ref_dhcp (view p) with
+          | Some x =>
+              if (rd_op x =? opcode) && (rd_htype x =? 1) && (rd_hlen x =? 6) && (rd_hops x =? 0)
+                 && eqbytes (rd_xid x) (if xflag then xid else sub old 4 4) && (rd_secs x =? 0)
+                 && (rd_flags x =? bflag bc 32768)
+                 && eqbytes (rd_ciaddr x) (if is4 ci then ci else sub old 12 4)
+                 && eqbytes (rd_yiaddr x) (if is4 yi then yi else sub old 16 4)
+                 && eqbytes (rd_siaddr x) [0;0;0;0] && eqbytes (rd_giaddr x) [0;0;0;0]
+                 && eqbytes (rd_chaddr x) ((if chflag then ch else sub old 28 6) ++ repeat 0 10)%list
+                 && forallb (fun v => v =? 0) (rd_sname x) && forallb (fun v => v =? 0) (rd_file x)
+                 && String.eqb (show_opts (rd_options x)) (show_opts o')
+                 && Nat.eqb (List.length (rd_options x)) (List.length o')
+                 && forallb (fun v => v =? 0) (rd_pad x)
+                 && Nat.eqb (len p) (Nat.max 300 (241 + opts_size o'))
+              then
+                if mask_before_router (rd_options x) then
+                  sp (show_enc old r)
+                     (fmt_dhcp (dec_of_N opcode) "1" "6" "0" (tok_of_bytes (if xflag then xid else sub old 4 4)) "0"
+                               (dec_of_N (bflag bc 32768))
+                               (tok_of_bytes (if is4 ci then ci else sub old 12 4))
+                               (tok_of_bytes (if is4 yi then yi else sub old 16 4)) "00000000" "00000000"
+                               (tok_of_bytes (if chflag then ch else sub old 28 6)) "63825363"
+                               (show_bool ((opcode =? 1) || (opcode =? 2))) (show_opts o'))
+                else "ROUTER-BEFORE-MASK"
+              else REF
+          | None => REF
+          end
+      | _ => "no-result"
+      end
+    else "-" in
+  out3 m s (if known then "dhcp-router-before-mask" else "-").
+
 (* ---------------- dispatch ---------------- *)
 Definition dispatch (kind : string) (args : list string) : string :=
   if String.eqb kind "ether" then
@@ -299,6 +649,58 @@ Definition dispatch (kind : string) (args : list string) : string :=
     match parse_args "nnnbbnbbnnb" args with
     | Some [AN c; AN l; AN s; AB smac; AB dmac; AN ttl; AB sip; AB dip; AN sport; AN dport; AB data] =>
         run_frame4 (nn c) (nn l) s smac dmac ttl sip dip sport dport data
+    | _ => BADARGS
+    end
+  else if String.eqb kind "ip6" then
+    match parse_args "nnnnbb" args with
+    | Some [AN c; AN l; AN s; AN hop; AB src; AB dst] => run_ip6 (nn c) (nn l) s hop src dst
+    | _ => BADARGS
+    end
+  else if String.eqb kind "ip6pl" then
+    match parse_args "nnnnbbnbb" args with
+    | Some [AN c; AN l; AN s; AN hop; AB src; AB dst; AN nh; AB mode; AB payload] =>
+        run_ip6pl (nn c) (nn l) s hop src dst nh mode payload
+    | _ => BADARGS
+    end
+  else if String.eqb kind "frame6" then
+    match parse_args "nnnbbnbbnnb" args with
+    | Some [AN c; AN l; AN s; AB smac; AB dmac; AN hop; AB sip; AB dip; AN sport; AN dport; AB data] =>
+        run_frame6 (nn c) (nn l) s smac dmac hop sip dip sport dport data
+    | _ => BADARGS
+    end
+  else if String.eqb kind "arp" then
+    match parse_args "nnnnbbbb" args with
+    | Some [AN c; AN l; AN s; AN op; AB smac; AB sip; AB dmac; AB dip] => run_arp (nn c) (nn l) s op smac sip dmac dip
+    | _ => BADARGS
+    end
+  else if String.eqb kind "echo" then
+    match parse_args "nnnnnnnb" args with
+    | Some [AN c; AN l; AN s; AN t; AN code; AN id; AN sq; AB data] => run_echo (nn c) (nn l) s t code id sq data
+    | _ => BADARGS
+    end
+  else if String.eqb kind "na" then
+    match parse_args "tttbb" args with
+    | Some [AT ro; AT so; AT ov; AB tip; AB tmac] => run_na ro so ov tip tmac
+    | _ => BADARGS
+    end
+  else if String.eqb kind "ns" then
+    match parse_args "bb" args with
+    | Some [AB tip; AB slla] => run_ns tip slla
+    | _ => BADARGS
+    end
+  else if String.eqb kind "dnsq" then
+    match parse_args "nnbn" args with
+    | Some [AN id; AN fl; AB name; AN qt] => run_dnsq id fl name qt
+    | _ => BADARGS
+    end
+  else if String.eqb kind "dhcp4" then
+    match args with
+    | [c; l; s; op; mt; chf; ch; ci; yi; xf; xid; bc; os; order; perm] =>
+        match parse_args "nnnnntbbbtbtbb" [c; l; s; op; mt; chf; ch; ci; yi; xf; xid; bc; order; perm], opts_of_tok os with
+        | Some [AN c; AN l; AN s; AN op; AN mt; AT chf; AB ch; AB ci; AB yi; AT xf; AB xid; AT bc; AB order; AB perm], Some o =>
+            run_dhcp4 (nn c) (nn l) s op mt chf ch ci yi xf xid bc o order perm
+        | _, _ => BADARGS
+        end
     | _ => BADARGS
     end
   else BADARGS.
